@@ -292,6 +292,21 @@ def run_case(ctx, P, stream, idx):
         except Exception as e:
             P.count("expectation.unavailable")
             continue
+        # independent of the emitters / parsers that produced `exp`: names, order and every plain scalar default of
+        # the source entry itself
+        P.monitor("symbol.defaults-vs-source.compared")
+        src_names = [n_ for n_ in ir["params"]]
+        got_names = [n_ for n_ in got["params"] if not (is_sa and n_ == "id" and "id" not in ir["params"])]
+        if got_names == src_names:
+            for pn, sp in ir["params"].items():
+                sd = sp.get("default")
+                if "default" not in sp or type(sd) not in (int, float, bool, str):
+                    continue
+                td = got["params"][pn].get("default", "<absent>")
+                if type(td) is not type(sd) or td != sd:
+                    dev("symbol-default-differs-from-source.t=%s,d=%s" % (irgen.type_kind_of(sp.get("typ")),
+                                                                         irgen.default_kind_of(sp)),
+                        "generated %s has %s=%r, its source entry has %r" % (nm, pn, td, sd))
         for dd in cmp_ir(exp, got, returns=False):
             dev("symbol-interface.%s.%s.%s" % (dd["where"], dd["field"], dd["how"]),
                 "generated %s differs from its source entry: %s %s %s expected %r got %r" % (
